@@ -56,6 +56,59 @@ def run(tier):
         for op in U.PAIR_OPS:
             if op in r:
                 recs.append({"op": op, "a": v["a"], "b": v["b"], "out": r[op], "view": "content"})
+    # find_buf with byte needles that contain NUL (a &[u8] may): every (a, b) with a over {a,b},
+    # b over {a,b,NUL}, both up to length 3, plus planted long ones
+    fb = []
+    import itertools
+    for la in range(0, 4):
+        for a in itertools.product([97, 98], repeat=la):
+            for lb in range(0, 4):
+                for b in itertools.product([97, 98, 0], repeat=lb):
+                    if 0 in b:
+                        fb.append({"a": list(a), "b": list(b)})
+    for _ in range(n_rand // 3):
+        a = [rng.choice([97, 98]) for _ in range(rng.randint(0, L))]
+        k = rng.randint(1, 4)
+        b = (a[-k:] if a else []) + [0] + [rng.choice([97, 98, 0]) for _ in range(rng.randint(0, 3))]
+        fb.append({"a": a, "b": b})
+    fres, fcr = U.run_driver(chk, bindir, "findbuf", fb, "c11fb")
+    for i, v in enumerate(fb):
+        r = fres.get(i)
+        if r and "find_buf" in r:
+            recs.append({"op": "find_buf", "a": v["a"], "b": v["b"], "out": r["find_buf"], "view": "content"})
+    for c in fcr:
+        v = fb[c["crash"]]
+        chk.violate({"op": "find_buf", "kind": "crash", "shape": "read_outside_argument"},
+                    "find_buf(a=%s, needle=%s) faulted on the guard page or aborted" % (bytes(v["a"]), bytes(v["b"])),
+                    {"mode": "findbuf", "op": "find_buf", "a": v["a"], "b": v["b"]})
+    # multi-byte UTF-8 operands (tokens a / é 日 😀 and the lone Latin-1 / lead bytes on the left side)
+    toks_b = [[97], [47], [195, 169], [230, 151, 165], [240, 159, 152, 128], [46]]
+    toks_a = toks_b + [[233], [195], [230, 151]]
+    ub = []
+    for _ in range(n_rand):
+        bb = sum((rng.choice(toks_b) for _ in range(rng.randint(0, 5))), [])
+        m = rng.randint(0, 3)
+        if m == 0:
+            aa = sum((rng.choice(toks_a) for _ in range(rng.randint(0, 6))), [])
+        elif m == 1:
+            aa = bb + sum((rng.choice(toks_a) for _ in range(rng.randint(0, 3))), [])
+        elif m == 2:
+            aa = bb[:rng.randint(0, len(bb))] + sum((rng.choice(toks_a) for _ in range(rng.randint(0, 3))), [])
+        else:
+            aa = sum((rng.choice(toks_a) for _ in range(rng.randint(0, 3))), []) + bb
+        ub.append({"a": aa, "b": bb})
+    ures, ucr = U.run_driver(chk, bindir, "pair", ub, "c11utf8")
+    for i, v in enumerate(ub):
+        r = ures.get(i)
+        if not r:
+            continue
+        for op in U.PAIR_OPS:
+            if op in r:
+                recs.append({"op": op, "a": v["a"], "b": v["b"], "out": r[op], "view": "content"})
+    for c in ucr:
+        v = ub[c["crash"]]
+        chk.violate({"op": c["op"], "kind": "crash", "shape": "read_outside_argument"},
+                    "%s faulted on the guard page (multi-byte operands)" % c["op"], {"mode": "pair", "op": c["op"], "a": v["a"], "b": v["b"]})
     bad = U.judge_with_tlc(chk, recs, "c11")
     chk.evaluations += len(recs)
     for k in bad:
